@@ -39,6 +39,11 @@ structure RetryShape where
   resetTotalTxs : Bool
   /-- `db.HashMap[i] = make(…)` for all 256 maps after the header of every attempt -/
   freshMaps : Bool
+  /-- `if u64 > file_size { goto fatal_error }` between reading the header's record count and pre-sizing the maps
+      (`file_size` = `of.Stat().Size()` of the file being read) -/
+  boundsCount : Bool
+  /-- `if le > file_size { goto fatal_error }` between `ReadVLen` and `Memory_Malloc(int(le))` -/
+  boundsLen : Bool
   deriving DecidableEq, Repr
 
 /-- the variables that survive `goto redo` -/
@@ -74,22 +79,24 @@ structure LoopSt where
 
 /-- `for tot_recs = 0; tot_recs < u64; tot_recs++ { ReadVLen; Memory_Malloc; ReadFull; copy key; dataSize.Add;
     if rec_idx == len(recs)-1 { ch <- recs; rec_idx = 0; pool_idx = (pool_idx+1) % BUFFERS_CNT; recs = recpool[pool_idx][:] }
-    else { rec_idx++ } }` — `false` = `goto fatal_error` -/
-def readLoop (sh : RetryShape) : Nat → Bytes → LoopSt → Bool × LoopSt
+    else { rec_idx++ } }` — `false` = `goto fatal_error`. `fsize` is `file_size`. What `Memory_Malloc` is asked for
+    on the way is `mallocs` below (same walk); here the allocation is assumed to return. -/
+def readLoop (sh : RetryShape) (fsize : Nat) : Nat → Bytes → LoopSt → Bool × LoopSt
   | 0, _, st => (true, st)
   | n + 1, b, st =>
     match readVLen b with
     | none => (false, st)
     | some (le, r) =>
-      if shorter r le then (false, st)
+      if sh.boundsLen && fsize < le then (false, st)
+      else if shorter r le then (false, st)
       else
         let cur := setSlot st.cur st.recIdx (r.take le)
         if st.recIdx + 1 = sh.pack then
           let pool := updPool st.pool st.poolIdx cur
           let p := (st.poolIdx + 1) % sh.buffers
-          readLoop sh n (r.drop le) ⟨0, p, pool, pool p, st.ins ++ slots cur sh.pack, st.dataSize + le⟩
+          readLoop sh fsize n (r.drop le) ⟨0, p, pool, pool p, st.ins ++ slots cur sh.pack, st.dataSize + le⟩
         else
-          readLoop sh n (r.drop le) ⟨st.recIdx + 1, st.poolIdx, st.pool, cur, st.ins, st.dataSize + le⟩
+          readLoop sh fsize n (r.drop le) ⟨st.recIdx + 1, st.poolIdx, st.pool, cur, st.ins, st.dataSize + le⟩
 
 /-- what `NewUnspentDb` leaves in the `UnspentDB` -/
 structure Loaded where
@@ -115,9 +122,11 @@ def attempt (sh : RetryShape) (v : LoadVars) (file : Option Bytes) : Attempt :=
       let u := leVal (f.take 8)
       let hash := (f.drop 8).take 32
       let cnt := leVal ((f.drop 40).take 8)
+      if sh.boundsCount && f.length < cnt then .fail v   -- refused before the maps are made; `ch` is still nil
+      else
       -- maps re-made; `db.totalTxs.Store(u64)`; `ch = make(…)`; `recs = recpool[pool_idx][:]`; the consumer starts
       let st0 : LoopSt := ⟨v.recIdx, v.poolIdx, v.pool, v.pool v.poolIdx, if sh.freshMaps then [] else v.ins, v.dataSize⟩
-      match readLoop sh cnt (f.drop 48) st0 with
+      match readLoop sh f.length cnt (f.drop 48) st0 with
       | (true, st) =>
         -- `if rec_idx > 0 { ch <- recs[:rec_idx] }; ch <- nil; wg.Wait()`
         .ok ⟨⟨u / 2 ^ 63 % 2 == 1, u % 2 ^ 32, hash, st.ins ++ slots st.cur st.recIdx⟩, cnt, st.dataSize⟩
@@ -136,6 +145,42 @@ def loadDir (sh : RetryShape) (db old : Option Bytes) (cfgCompressed : Bool) : L
     match attempt sh v1 old with
     | .ok l => l
     | .fail v2 => ⟨⟨cfgCompressed, 0, [], []⟩, v2.totalTxs, v2.dataSize⟩
+
+/-! ### what the loader asks the allocator for
+
+  The record count of the header and the record lengths come from the file and go straight into `make(map, int(u64)/256)`
+  (256 times) and `Memory_Malloc(int(le))`. The walks below list these requests — the same walk as `attempt/readLoop`,
+  as the uint64 that was read (the code converts with `int(…)`: a value ≥ 2^63 is a negative length — `makeslice: len out
+  of range` —, a smaller absurd one ends the process with `fatal error: out of memory`). -/
+
+/-- the arguments of `Memory_Malloc` in one record loop, in order (the last one may be the request whose `ReadFull` fails) -/
+def mallocs (sh : RetryShape) (fsize : Nat) : Nat → Bytes → List Nat
+  | 0, _ => []
+  | n + 1, b =>
+    match readVLen b with
+    | none => []
+    | some (le, r) =>
+      if sh.boundsLen && fsize < le then []
+      else if shorter r le then [le]
+      else le :: mallocs sh fsize n (r.drop le)
+
+structure MemAsk where
+  /-- the record count the maps are pre-sized for, when the attempt gets that far -/
+  mapsFor : Option Nat
+  /-- every argument of `Memory_Malloc` -/
+  mallocs : List Nat
+  deriving DecidableEq, Repr
+
+/-- the requests of one pass from `redo:` over a file -/
+def memAsk (sh : RetryShape) (file : Option Bytes) : MemAsk :=
+  match file with
+  | none => ⟨none, []⟩
+  | some f =>
+    if f.length < 48 then ⟨none, []⟩
+    else
+      let cnt := leVal ((f.drop 40).take 8)
+      if sh.boundsCount && f.length < cnt then ⟨none, []⟩
+      else ⟨some cnt, mallocs sh f.length cnt (f.drop 48)⟩
 
 /-- the sum `db.dataSize` is meant to hold -/
 def dataSizeOf (recs : List Bytes) : Nat := (recs.map List.length).sum
